@@ -312,11 +312,7 @@ func c18Run(c *core.Ctx) {
 					cp.take()
 					return
 				}
-				cls := "returned"
-				if !l.Out.HasPw {
-					cls = outcomeClass(l.Out, l.Tape)
-				}
-				s.observe(tname, cls, l.Out, rp, true)
+				s.observe(tname, outcomeClass(l.Out, l.Tape), l.Out, rp, true)
 			})
 			c.Count("nodes", st.Nodes)
 			c.Count("edges", st.Edges)
